@@ -43,9 +43,10 @@ def dominator_sets(n, rows, entry=0):
     return dom
 
 
-def idoms(n, rows, entry=0):
-    """{v: immediate dominator or None} for every node reachable from the entry."""
-    dom = dominator_sets(n, rows, entry)
+def idoms(n, rows, entry=0, dom=None):
+    """{v: immediate dominator or None} for every node reachable from the entry (dom: precomputed dominator_sets)."""
+    if dom is None:
+        dom = dominator_sets(n, rows, entry)
     out = {}
     for v in range(n):
         if not dom[v]:
